@@ -47,6 +47,12 @@ BaseOf(t) == IF t.k = "struct" THEN "Structure" ELSE IF t.k = "union" THEN "Unio
 ClassOf(t) == IF t.k = "enum" THEN [name |-> t.name, base |-> BaseOf(t), fields |-> << >>, members |-> [j \in 1..Len(t.members) |-> t.members[j][1]]]
               ELSE [name |-> t.name, base |-> BaseOf(t), fields |-> Folded(t.fields, 1), members |-> << >>]
 
+\* the type a `typedef T name[n];` / `typedef T *name;` declares, as Trace_Parser builds it
+AliasType(tab, d) ==
+  LET tgt == Resolve(tab, Nm(d.target))
+      named == tgt.id.k \in {"struct", "union"} /\ tgt.id.name # ""
+  IN IF d.kind = "aliasarr" THEN [k |-> "arr", elem |-> tgt.id, len |-> [k |-> "fixed", n |-> d.n]]
+     ELSE [k |-> "ptr", target |-> IF named THEN [k |-> "ref", name |-> tgt.id.name] ELSE tgt.id]
 \* name table as in Trace_Parser (only what the alias targets need)
 RECURSIVE Fold(_, _, _)
 Fold(decls, i, tab) ==
@@ -55,14 +61,25 @@ Fold(decls, i, tab) ==
        CASE d.kind = "type"  -> Fold(decls, i + 1, [n \in DOMAIN tab \cup {d.names[j] : j \in 1..Len(d.names)} |-> IF n \in {d.names[j] : j \in 1..Len(d.names)} THEN Ty(d.type) ELSE tab[n]])
          [] d.kind = "alias" -> LET tgt == Resolve(tab, Nm(d.target)) IN
                                 Fold(decls, i + 1, [n \in DOMAIN tab \cup {d.names[1]} |-> IF n = d.names[1] THEN tgt ELSE tab[n]])
+         [] d.kind \in {"aliasarr", "aliasptr"} ->
+              Fold(decls, i + 1, [n \in DOMAIN tab \cup {d.names[1]} |-> IF n = d.names[1] THEN Ty(AliasType(tab, d)) ELSE tab[n]])
          [] OTHER -> Fold(decls, i + 1, tab)
 TypeNameOf(t) == HintOf(t).id
+IsGeneric(t) == t.k \in {"arr", "ptr"}
 
 ExpectedClasses(T) == {ClassOf(T.decls[i].type) : i \in {j \in 1..Len(T.decls) : T.decls[j].kind = "type"}}
 ExpectedAliases(T) ==
   LET tab == Fold(T.decls, 1, Tab0) IN
   UNION { IF T.decls[i].kind = "type" THEN {<<T.decls[i].names[j], T.decls[i].names[1]>> : j \in 2..Len(T.decls[i].names)}
-          ELSE IF T.decls[i].kind = "alias" THEN {<<T.decls[i].names[1], TypeNameOf(Resolve(tab, Nm(T.decls[i].names[1])).id)>>}
+          ELSE IF T.decls[i].kind = "alias" /\ ~IsGeneric(Resolve(tab, Nm(T.decls[i].names[1])).id)
+          THEN {<<T.decls[i].names[1], TypeNameOf(Resolve(tab, Nm(T.decls[i].names[1])).id)>>}
+          ELSE {} : i \in 1..Len(T.decls) }
+\* a name of an array or pointer type (typedef T a[4]; typedef T *p; and aliases of such names) is declared as an alias of the
+\* generic hint that names the type: Array[...], Pointer[...], CharArray (finding F62)
+ExpectedTypeAliases(T) ==
+  LET tab == Fold(T.decls, 1, Tab0) IN
+  UNION { IF T.decls[i].kind \in {"alias", "aliasarr", "aliasptr"} /\ IsGeneric(Resolve(tab, Nm(T.decls[i].names[1])).id)
+          THEN {<<T.decls[i].names[1], HintOf(Resolve(tab, Nm(T.decls[i].names[1])).id)>>}
           ELSE {} : i \in 1..Len(T.decls) }
 ToSet(s) == {s[j] : j \in 1..Len(s)}
 
@@ -70,6 +87,7 @@ Clauses(T) ==
   IF ~T.obs.valid THEN {"invalid-python"}
   ELSE (IF ToSet(T.obs.classes) = ExpectedClasses(T) THEN {} ELSE {"classes"})
        \cup (IF ToSet(T.obs.aliases) = ExpectedAliases(T) THEN {} ELSE {"aliases"})
+       \cup (IF ToSet(T.obs.typealiases) = ExpectedTypeAliases(T) THEN {} ELSE {"aliases"})
        \cup (IF ToSet(T.obs.consts) = ToSet(T.consts) THEN {} ELSE {"consts"})
        \cup (IF Len(T.obs.other) = 0 THEN {} ELSE {"extra-declarations"})
        \* a hint must NAME a type: an unqualified name is only meaningful when the same class body declares it (inline
@@ -82,7 +100,7 @@ Clauses(T) ==
              THEN {} ELSE {"shadow-class"})
        \* a name a hint reaches through the stub class (cstruct.X) is a class or alias declared at its top level, or a built-in type
        \cup (IF \A j \in 1..Len(T.obs.scopes) :
-                  ToSet(T.obs.scopes[j].qual) \subseteq {c.name : c \in ExpectedClasses(T)} \cup {a[1] : a \in ExpectedAliases(T)} \cup BuiltinNames
+                  ToSet(T.obs.scopes[j].qual) \subseteq {c.name : c \in ExpectedClasses(T)} \cup {a[1] : a \in ExpectedAliases(T)} \cup {a[1] : a \in ExpectedTypeAliases(T)} \cup BuiltinNames
              THEN {} ELSE {"undeclared-hint"})
 
 VARIABLE tid
